@@ -29,13 +29,13 @@ SCOPE = c02.SCOPE
 AKID = c02.AKID
 
 CASES = ['authz-header', 'authz-foreign', 'authz-basic', 'cred-in-header', 'sig-in-header', 'signedheaders-in-header', 'q-credential', 'q-signature', 'q-date', 'q-signedheaders',
-         'q-token', 'fold-signature', 'fold-credential', 'x-amz-date-twice', 'x-amz-date-vs-date', 'x-amz-date-blank', 'x-amz-date-spaces', 'date-twice', 'token-header', 'both-carriers']
+         'q-token', 'fold-signature', 'fold-credential', 'x-amz-date-twice', 'x-amz-date-vs-date', 'x-amz-date-blank', 'x-amz-date-spaces', 'date-twice', 'token-header', 'both-carriers', 'both-carriers-otheralg', 'both-carriers-emptyalg']
 
 
 def shapes(tier, seed):
     out = []
     for case in CASES:
-        if case == 'both-carriers':
+        if case.startswith('both-carriers'):
             out.append((case, 'n/a'))
             continue
         for order in ('valid-selected', 'decoy-selected'):
@@ -93,7 +93,7 @@ def run_shape(prog, shape, tier, seed, res):
         last = lambda a, b: (b, a) if want_ok else (a, b)       # order on the wire when the LAST one is selected
         if case in ('authz-header', 'authz-foreign', 'authz-basic', 'cred-in-header', 'sig-in-header', 'signedheaders-in-header', 'x-amz-date-twice', 'x-amz-date-vs-date',
                     'x-amz-date-blank', 'x-amz-date-spaces',
-                    'date-twice', 'token-header', 'both-carriers'):
+                    'date-twice', 'token-header', 'both-carriers', 'both-carriers-otheralg', 'both-carriers-emptyalg'):
             # ---- header carrier
             date_headers = [('x-amz-date', conc_bytes(TS))]
             if case == 'x-amz-date-twice':
@@ -128,9 +128,15 @@ def run_shape(prog, shape, tier, seed, res):
             signed = sorted(set(signed))
             # the reference signer signs what the documented selection designates: timestamp TS, credential AKID/SCOPE
             cq = []
-            if case == 'both-carriers':
-                pairs = [(conc_bytes('X-Amz-Algorithm'), conc_bytes('AWS4-HMAC-SHA256'))]
-                wire_q = conc_bytes('X-Amz-Algorithm=AWS4-HMAC-SHA256')
+            if case.startswith('both-carriers'):
+                # the presence of the parameter decides, not its value
+                algv = conc_bytes('AWS4-HMAC-SHA256')
+                if case == 'both-carriers-otheralg':
+                    algv = decoy_like(ctx, algv, 'ba', 'alnum')
+                elif case == 'both-carriers-emptyalg':
+                    algv = []
+                pairs = [(conc_bytes('X-Amz-Algorithm'), list(algv))]
+                wire_q = conc_bytes('X-Amz-Algorithm=') + list(algv)
                 cq = R.ref_canon_query_from_pairs(ctx, pairs)
             sig, creq, sts = ref_sign(m, key, ctx, 'GET', conc_bytes('/'), cq, headers, signed, [], conc_bytes(TS), conc_bytes(SCOPE))
             good = auth_header(cred, signed, sig)
@@ -277,7 +283,7 @@ def run_shape(prog, shape, tier, seed, res):
             sat, model = ctx.satisfiable()
             if sat:
                 res.findings.append(Finding(what, {'case': case, 'order': order, 'request': rq.to_json(model)}, None, None, repr(shape)))
-        if case == 'both-carriers':
+        if case.startswith('both-carriers'):
             res.witnesses.add('both:' + (o[0] if o[0] == 'ok' else o[1]))
             if o[0] == 'ok' or o[1] != 'SignatureDoesNotMatch':
                 fail('request with both an Authorization header and X-Amz-Algorithm not refused as SignatureDoesNotMatch (%s)' % (o[1] if o[0] != 'ok' else 'ok'))
@@ -364,9 +370,10 @@ def concrete_case(case, order, rnd):
         signed = sorted(set(signed))
         uri = '/'
         cq = b''
-        if case == 'both-carriers':
-            uri = '/?X-Amz-Algorithm=AWS4-HMAC-SHA256'
-            cq = b'X-Amz-Algorithm=AWS4-HMAC-SHA256'
+        if case.startswith('both-carriers'):
+            alg = {'both-carriers': 'AWS4-HMAC-SHA256', 'both-carriers-otheralg': 'AWS4-HMAC-SHA512', 'both-carriers-emptyalg': ''}[case]
+            uri = '/?X-Amz-Algorithm=' + alg
+            cq = ('X-Amz-Algorithm=' + alg).encode()
         sig, _, _ = py_sign(key, 'GET', b'/', cq, hl(), signed, b'', TS, SCOPE, is_key=True)
         dsig = ('0' if sig[0] != '0' else '1') + sig[1:]
         mk = lambda c, sh, s: 'AWS4-HMAC-SHA256 Credential=%s, SignedHeaders=%s, Signature=%s' % (c, sh, s)
@@ -435,7 +442,7 @@ def replay_finding(rp, f):
         return False, None
     j = concrete_case(inp['case'], inp['order'], random.Random(0))
     nk, calls = native_outcome(rp, j)
-    if inp['case'] == 'both-carriers':
+    if inp['case'].startswith('both-carriers'):
         return nk != 'SignatureDoesNotMatch' or bool(calls), {'native': nk}
     want_ok = inp['order'] == 'valid-selected'
     if inp['case'] in IDENTITY_CASES:
